@@ -10,6 +10,7 @@ mod c15;
 mod c17;
 mod c18;
 mod rng;
+mod sys;
 
 use std::io::{BufRead, BufWriter, Write};
 
@@ -76,6 +77,7 @@ fn main() {
                 "c12" => c12::generate(&opts, &mut out),
                 "c17" => c17::generate(&opts, &mut out),
                 "c14" => c14::generate(&opts, &mut out),
+                p if p.starts_with("sys") => sys::generate(&opts, p, &mut out),
                 "c18" => c18::generate(&opts, &mut out),
                 other => {
                     eprintln!("unknown profile {other}");
@@ -116,5 +118,9 @@ fn main() {
 /// Executes a multi-line case (`case …` header followed by input lines).
 pub fn exec_case(lines: &[String], out: &mut Out) {
     let hdr = &lines[0];
-    writeln!(out, "# no executor for {hdr}").unwrap();
+    if hdr.split(' ').nth(2) == Some("sys") {
+        sys::exec_case(lines, out);
+    } else {
+        writeln!(out, "# no executor for {hdr}").unwrap();
+    }
 }
